@@ -298,3 +298,56 @@ func devSeq(pool *sup.Pool, args []string) int {
 }
 
 func init() { devCmds["seq"] = devSeq }
+
+// devAdmits: re-run the guided replay of a C04 witness.
+func devAdmits(pool *sup.Pool, args []string) int {
+	raw, _ := os.ReadFile(args[0])
+	var w struct {
+		Program string   `json:"program"`
+		ID      string   `json:"program_id"`
+		Stdout  []string `json:"stdout"`
+	}
+	json.Unmarshal(raw, &w)
+	var s int64
+	fmt.Sscanf(w.ID, "g%d", &s)
+	var p *ast.Program
+	for i := -1; i < 3000 && p == nil; i++ {
+		var o *gen.Opt
+		if i >= 0 {
+			if i%3 != 0 {
+				continue
+			}
+			oo := gen.Opt{MaxSplit: 2, Pol: 2, Alias: 30, ExplicitSelf: 10, ExplicitProv: 10, Exec: 10, Print: 35, TopMax: 2, Fuel: 2, MultiProv: 20, Drop: 10, Split: 12, Mixed: i%2 == 0, MainMode: []ast.Mode{ast.Lin, ast.Rep, ast.Mul, ast.Aff}[i%4]}
+			o = &oo
+		}
+		q, _, _ := gen.Generate(s, o)
+		if h := subSeed(s, 77); h%3 == 0 {
+			q2, _ := mut.Rename(q, rand.New(rand.NewSource(h)), true)
+			if typing.Check(q2).Kind == typing.Accept {
+				q = q2
+			}
+		}
+		if q.Text() == w.Program {
+			p = q
+		}
+	}
+	if p == nil {
+		fmt.Println("cannot regenerate")
+		return 1
+	}
+	sr := &sem.Search{MaxState: 200000, MaxSteps: 400000}
+	adm, dec := sem.New(p).Admits(w.Stdout, sr)
+	fmt.Println("admits", adm, "decided", dec, "states", sr.States)
+	for k := 1; k <= len(w.Stdout); k++ {
+		sr := &sem.Search{MaxState: 200000, MaxSteps: 400000}
+		a, d := sem.New(p).AdmitsPrefix(w.Stdout[:k], sr)
+		fmt.Println("prefix", k, w.Stdout[:k], a, d)
+		if !a {
+			fmt.Println(sem.New(p).DeepestFailure(w.Stdout[:k], &sem.Search{MaxState: 20000, MaxSteps: 400000}))
+			break
+		}
+	}
+	return 0
+}
+
+func init() { devCmds["admits"] = devAdmits }
